@@ -18,4 +18,16 @@ TEXT = {
   "note": "JSON-RPC server survival and embedded getters are not theorems (runtime / correspondence).",
   "technique": "Lean 4 proof (omega) + differential correspondence",
  },
+ "C14": {
+  "text": "Kernel-checked theorems over the Go-faithful model of higherPriority (uint64 products), filterBlocksToCommit "
+          "and the per-address memdbManager-backed pool: the competition rule is total/antisymmetric for all uint64 inputs, "
+          "transitive and arrival-order independent in the accepted plasma range (negative witnesses for zero plasma and "
+          "wrap-around), the momentum content is the longest batch-boundary prefix within the limit, and the pooled blocks "
+          "form one chain above the confirmed frontier under all operation sequences; tied by regenerated constants and "
+          "differential streams.",
+  "design_ref": "§3 C14",
+  "note": "Data-race freedom and reader atomicity are runtime properties (not theorems). The pool state machine is a "
+          "hand-written model; the two pure decision functions are tied by differential streams.",
+  "technique": "Lean 4 proof (induction/omega) + regenerated constants + differential correspondence",
+ },
 }
